@@ -99,6 +99,22 @@ func (e *c20TypeEnv) ty(x ast.Expr, depth int) string {
 	return fmt.Sprintf("(.unrecognised %q)", e.pos(x))
 }
 
+// c20IsBasic: the type expression is a predeclared basic type, or a pointer to one.
+func c20IsBasic(x ast.Expr) bool {
+	if st, ok := x.(*ast.StarExpr); ok {
+		x = st.X
+	}
+	id, ok := x.(*ast.Ident)
+	if !ok {
+		return false
+	}
+	switch id.Name {
+	case "string", "bool", "int", "int64", "uint64", "float64", "int32", "uint32", "float32", "uint":
+		return true
+	}
+	return false
+}
+
 func extractC20Types(repo string) (string, error) {
 	env, _, err := c20LoadPackage(repo)
 	if err != nil {
@@ -109,7 +125,7 @@ func extractC20Types(repo string) (string, error) {
 		names = append(names, n)
 	}
 	sort.Strings(names)
-	var fields, wrappers, maplikes, embedded, firstExt []string
+	var fields, wrappers, maplikes, embedded, firstExt, plain []string
 	for _, n := range names {
 		st, ok := env.specs[n].Type.(*ast.StructType)
 		if !ok {
@@ -149,6 +165,9 @@ func extractC20Types(repo string) (string, error) {
 				}
 				if tag != "" {
 					fields = append(fields, fmt.Sprintf("⟨%q, %q, %s⟩", n, tag, env.ty(f.Type, 0)))
+					if c20IsBasic(f.Type) {
+						plain = append(plain, fmt.Sprintf("%q", n+"."+tag))
+					}
 				}
 			}
 		}
@@ -167,6 +186,9 @@ func extractC20Types(repo string) (string, error) {
 	sb.WriteString("def c20Wrappers : List (String × Ty) := [\n  " + strings.Join(wrappers, ",\n  ") + "]\n\n")
 	sb.WriteString("def c20Maplikes : List (String × Ty) := [\n  " + strings.Join(maplikes, ",\n  ") + "]\n\n")
 	sb.WriteString("def c20Embedded : List (String × String) := [\n  " + strings.Join(embedded, ",\n  ") + "]\n\n")
-	sb.WriteString("def c20ExtensionsFirst : List String := [\n  " + strings.Join(firstExt, ", ") + "]\n\nend KinModel.Gen\n")
+	sb.WriteString("def c20ExtensionsFirst : List String := [\n  " + strings.Join(firstExt, ", ") + "]\n\n")
+	// "Owner.tag" of the tagged fields whose declared type is a predeclared basic type or a pointer to one
+	// (encoding/json rejects a JSON object or array there; no named type, no custom unmarshaller in between)
+	sb.WriteString("def c20PlainScalars : List String := [\n  " + strings.Join(plain, ", ") + "]\n\nend KinModel.Gen\n")
 	return sb.String(), nil
 }
